@@ -27,7 +27,7 @@ from props import c02
 
 PID = 'C03'
 TRANSLATORS = ['write_order']
-LEAN_PROPS = ['Pyc.Props.C03', 'Pyc.Props.C03b']
+LEAN_PROPS = ['Pyc.Props.C03', 'Pyc.Props.C03b', 'Pyc.Props.C03c']
 LEAN_MODULES = ['Pyc.Model.SaveMachine', 'Pyc.Model.Sync', 'Pyc.Model.Indent']
 META = dict(
     level_text=('Proof: Pyc/Props/C03.lean proves for the save/write machine that any number of saves equals one '
@@ -127,6 +127,68 @@ def base_bytes(rng, kind):
             ET.SubElement(ex, '{%s}technique' % ns, profile='SCENE').text = 'kept'
             inj.append('scene/extra')
     return ET.tostring(root), inj
+
+
+ROOT_MANAGED = ['library_geometries', 'library_controllers', 'library_lights', 'library_cameras', 'library_images', 'library_effects',
+                'library_materials', 'library_nodes', 'library_visual_scenes']
+ROOT_ITEM = dict(library_lights='lights', library_cameras='cameras', library_images='images', library_effects='effects',
+                 library_geometries='geometries', library_nodes='nodes', library_visual_scenes='scenes')
+
+
+def root_case(rng):
+    """a document whose root has the given children — several library elements of one kind, libraries without objects, unmanaged
+    libraries, extras, with or without <scene> — through one Collada.save(): (request line, children written, children after a second save)"""
+    import collada
+    from props import c20
+    kids = ['asset'] if rng.random() < 0.9 else []
+    uid = [0]
+    xml = {}
+    pool = ROOT_MANAGED + ['library_animations', 'library_physics_materials', 'extra']
+    for _ in range(rng.randint(0, 9)):
+        kids.append(rng.choice(pool))
+    if rng.random() < 0.4:
+        k = rng.choice(ROOT_MANAGED)
+        kids += [k] * rng.randint(1, 2)
+    rng.shuffle(kids)
+    if 'asset' in kids and rng.random() < 0.8:
+        kids.remove('asset')
+        kids.insert(0, 'asset')
+    scene_id = None
+    body = []
+    for k in kids:
+        if k == 'asset':
+            body.append('<asset><created>2001-01-01T00:00:00</created><modified>2001-01-01T00:00:00</modified></asset>')
+        elif k == 'extra':
+            body.append('<extra><technique profile="T"><a>1</a></technique></extra>')
+        elif k in ROOT_ITEM and rng.random() < 0.6:
+            items = []
+            for _ in range(rng.randint(1, 2)):
+                uid[0] += 1
+                id_ = 'r%d' % uid[0]
+                items.append(c20.VALID[ROOT_ITEM[k]].format(p='', id=id_, perm='0 1 2', extra2=''))
+                if k == 'library_visual_scenes' and scene_id is None:
+                    scene_id = id_
+            body.append('<%s>%s</%s>' % (k, ''.join(items), k))
+        else:
+            body.append('<%s/>' % k)
+    if scene_id and rng.random() < 0.7:
+        if rng.random() < 0.5:
+            pos = next((i for i, k in enumerate(kids) if k == 'extra'), len(kids))
+            kids.insert(pos, 'scene')
+            body.insert(pos, '<scene><instance_visual_scene url="#%s"/></scene>' % scene_id)
+        else:
+            scene_id = scene_id + '!'        # the model gets its default scene after loading
+    data = ('<COLLADA xmlns="%s" version="1.4.1">%s</COLLADA>' % (NS14, ''.join(body))).encode()
+    doc = collada.Collada(io.BytesIO(data))
+    if scene_id and scene_id.endswith('!'):
+        doc.scene = doc.scenes[scene_id[:-1]]
+    full = [k for k in ROOT_MANAGED if len(getattr(doc, ROOT_ITEM.get(k, 'controllers')))]
+    line = 'root %d ; %s ; %s' % (1 if doc.scene is not None else 0, ' '.join(full), ' '.join(kids))
+    doc.save()
+    one = [c.tag.split('}')[1] for c in doc.xmlnode.getroot()]
+    doc.save()
+    two = [c.tag.split('}')[1] for c in doc.xmlnode.getroot()]
+    return line, ' '.join(one), ' '.join(two)
 
 
 class FailingSink(object):
@@ -519,6 +581,26 @@ def run(ctx):
                 ctx.violation('corr:indent', 'collada.xmlutil.indent and Pyc.Indent.indent disagree on %r: model %r, implementation %r' % (l[:200], m[:200], w[:200]),
                               dict(kind='indent', line=l), found_input=False)
                 break
+    # the root element through save(): Pyc.RootSave.saveRoot (Props/C03c: saveRoot_idem, saveRoot_counts)
+    rl, r1, rk = [], [], []
+    for i in range(ctx.n(150, 4000)):
+        key = 'c03root/%s/%d' % (ctx.rng.randrange(10 ** 9), i)
+        try:
+            l, one, two = root_case(random.Random(key))
+        except Exception as e:
+            core.note_skip('c03:root-case', e)
+            continue
+        ctx.count('kernel:root')
+        ctx.case(dict(check='root', line=l[:160]))
+        if one != two:
+            report('A', ('root-not-idempotent', 'the children of <COLLADA> after one save() are %r, after a second one %r (%s)' % (one, two, l)), dict(kind='root', key=key))
+        rl.append(l); r1.append(one); rk.append(key)
+    if ctx.lean_ok and rl:
+        for l, one, m, key in zip(rl, r1, ctx.driver('C03c', rl), rk):
+            if m != one:
+                ctx.violation('corr:root', 'Collada.save and Pyc.RootSave.saveRoot disagree on %r: model %r, implementation %r' % (l, m, one),
+                              dict(kind='root', key=key), found_input=False)
+                break
     bases = ['constructed', 'reloaded', 'docgen', 'docgen'] + c02.CORPUS
     for i in range(ctx.n(60, 2500)):
         kind = bases[i % len(bases)] if i % 3 == 2 else ('constructed' if i % 3 == 0 else 'reloaded')
@@ -584,6 +666,9 @@ def replay(ctx, rep):
         res = check_unmodelled(random.Random(rep['seed']), rep['base'])
     elif k == 'failure':
         res = check_failure(rep['seed'], rep['mode'], rep['dest'])
+    elif k == 'root':
+        l, one, two = root_case(random.Random(rep['key']))
+        res = ('root-not-idempotent', 'the children of <COLLADA> after one save() are %r, after a second one %r (%s)' % (one, two, l)) if one != two else None
     else:
         res = None
     if res:
